@@ -781,10 +781,49 @@ func (it *Interp) external(cal *ssa.Function, args []*Term, st *State, pos strin
 
 // atomicSetting interprets Load / Store on a settings field held in atomic.Value or in a typed atomic.
 func (it *Interp) atomicSetting(id string, cal *ssa.Function, args []*Term, st *State, pos string, k cont) bool {
-	if !strings.HasPrefix(id, "(*sync/atomic.") || len(args) == 0 {
+	if len(args) == 0 {
 		return false
 	}
-	meth := id[strings.LastIndex(id, ").")+2:]
+	meth := ""
+	switch {
+	case strings.HasPrefix(id, "(*sync/atomic."):
+		meth = id[strings.LastIndex(id, ").")+2:]
+	case strings.HasPrefix(id, "sync/atomic."):
+		// function form on a plain word: LoadInt64, StoreUint32, AddInt64, SwapPointer, CompareAndSwapInt64, ...
+		fn := strings.TrimPrefix(id, "sync/atomic.")
+		for _, op := range []string{"CompareAndSwap", "Load", "Store", "Add", "Swap", "And", "Or"} {
+			if strings.HasPrefix(fn, op) {
+				meth = op
+				break
+			}
+		}
+	}
+	if meth == "" {
+		return false
+	}
+	isSetting := false
+	if f := args[0]; f.Op == "fieldaddr" {
+		switch it.role(f.K) {
+		case "defaultExpiration", "evictedCallback":
+			isSetting = true
+		}
+	}
+	if !isSetting && meth != "Load" {
+		// an auxiliary atomic word (statistics counter, flag): the operation is recorded, its result is opaque; it
+		// takes no part in the decision tables unless its value reaches a branch or an output
+		st.nCall++
+		name := args[0].String()
+		if args[0].Op == "fieldaddr" {
+			name = args[0].K
+		}
+		st.Events = append(st.Events, Event{Kind: "auxatomic", N: st.nCall, Name: name + "." + meth, Args: args[1:], Pos: pos})
+		var rets []*Term
+		for i := 0; i < cal.Signature.Results().Len(); i++ {
+			rets = append(rets, Leaf("aux", fmt.Sprintf("%s.%s#%d.%d", name, meth, st.nCall, i)))
+		}
+		k(st, rets)
+		return true
+	}
 	switch meth {
 	case "Load":
 		st.nCall++
